@@ -719,7 +719,9 @@ pub enum Got {
 }
 
 pub fn build_real(run: u32, banks: &[(String, Vec<u8>)]) -> Got {
-    match MainEvent::try_from_banks(run, banks.iter().map(|(n, d)| (n.as_str(), &d[..]))) {
+    // (bank payloads at addresses 0..3 modulo 4, see eventgen::PlacedBanks)
+    let placed = crate::eventgen::PlacedBanks::new(banks, banks.len());
+    match MainEvent::try_from_banks(run, placed.iter()) {
         Err(e) => {
             let s = format!("{e:?}");
             let _ = format!("{e}");
